@@ -57,6 +57,7 @@ var c18xKinds = []c18xKind{
 	{"sortget", true, [][]string{{"SORT", "$0", "GET", "$1", "STORE", "$2"}, {"SORT", "$0", "STORE", "$1", "GET", "$2"}}},
 	{"sortlimit", true, [][]string{{"SORT", "$0", "LIMIT", "0", "5", "STORE", "$1"}, {"SORT", "$0", "STORE", "$1", "LIMIT", "0", "5"}, {"SORT", "$0", "ALPHA", "DESC", "LIMIT", "0", "5"}}},
 	// STORE repeated: the LAST destination counts
+	{"sortstore3", true, [][]string{{"SORT", "$0", "STORE", "$1", "STORE", "$2"}, {"SORT", "$0", "ALPHA", "DESC", "STORE", "$1"}}},
 	{"sortstore2", true, [][]string{{"SORT", "$0", "STORE", "$0", "STORE", "$1"}, {"SORT", "$0", "ALPHA", "DESC", "STORE", "$1"}, {"SORT", "$0", "STORE", "$1", "ALPHA", "DESC"}}},
 	// numkeys-counted lists
 	{"eval", true, [][]string{{"EVAL", "return 1", "1", "$0", "$1"}, {"EVAL", "return 1", "2", "$0", "$1"}}},
